@@ -65,7 +65,7 @@ impl PathFetcher for Fetcher {
 
 // ---------------------------------------------------------------- scenario
 #[derive(Clone, Debug)]
-struct WSpec { kind: u8, wave: u8, pre_yields: u32, pre_sleep_us: u64, timeout_us: u64 } // kind: 0 path_wait, 1 cached_path, 2 path_timeout
+struct WSpec { kind: u8, wave: u8, pre_yields: u32, pre_sleep_us: u64, timeout_us: u64, far_future: bool } // kind: 0 path_wait, 1 cached_path, 2 path_timeout
 #[derive(Clone, Debug)]
 struct Scenario {
     name: String,
@@ -135,7 +135,8 @@ async fn drive(sc: Scenario, sink: Arc<vt::Sink>) -> Outcome {
             let w = w.clone();
             let fut = vt::ACTOR.scope(i as u64 + 1, async move {
                 pre_delay(w.pre_yields, w.pre_sleep_us).await;
-                let now = SystemTime::now();
+                // `now` is the caller's: one day ahead every path the fetcher returns is expired
+                let now = SystemTime::now() + Duration::from_secs(if w.far_future { 86_400 } else { 0 });
                 if w.kind == 0 {
                     match m.path_wait(src, dst, now).await {
                         Ok(_) => Res::Path,
@@ -338,6 +339,7 @@ fn gen_random(r: &mut Rng, idx: usize, mt_share: u64) -> Scenario {
         waiters.push(WSpec {
             kind: *r.pick(&[0u8, 0, 0, 0, 1, 1, 2, 2]),
             timeout_us: *r.pick(&[0u64, 100, 500, 2000, 8000, 50_000]),
+            far_future: expired_mode() && r.chance(1, 8),
             wave: if two_waves && r.chance(2, 5) { if three_waves && r.chance(1, 2) { 2 } else { 1 } } else { 0 },
             pre_yields: r.below(6) as u32,
             pre_sleep_us: if r.chance(1, 3) { r.below(4000) } else { 0 },
@@ -363,8 +365,13 @@ fn gen_random(r: &mut Rng, idx: usize, mt_share: u64) -> Scenario {
     }
 }
 
+/// VERIF_C20_EXPIRED=1: some callers pass a `now` one day ahead, so the path they read from the
+/// slot is expired for them (exercises the hand-out check of path()/cached_path(); off by default
+/// because that check belongs to C06)
+fn expired_mode() -> bool { std::env::var("VERIF_C20_EXPIRED").as_deref() == Ok("1") }
+
 fn gen_directed(seed: u64) -> Vec<Scenario> {
-    let w = |kind, wave, y| WSpec { kind, wave, pre_yields: y, pre_sleep_us: 0, timeout_us: 1500 };
+    let w = |kind, wave, y| WSpec { kind, wave, pre_yields: y, pre_sleep_us: 0, timeout_us: 1500, far_future: false };
     let a = |res, yields, sleep_ms| Ans { res, yields, sleep_ms };
     let base = |name: &str, threads, waiters: Vec<WSpec>, answers: Vec<Ans>| Scenario {
         name: name.into(), threads, waiters, answers, idle_ms: 10_000, refetch_ms: 60_000, gap_ms: [0, 0, 0],
@@ -423,6 +430,14 @@ fn gen_directed(seed: u64) -> Vec<Scenario> {
                 s.perturb = mode;
                 v.push(s);
             }
+        }
+    }
+    if expired_mode() {
+        for threads in [0usize, 3] {
+            let mut s = base("expired-for-the-caller", threads, (0..6).map(|i| w(if i % 3 == 2 { 1 } else { 0 }, if i < 3 { 0 } else { 1 }, i % 3)).collect(), vec![a(0, 2, 1)]);
+            for x in s.waiters.iter_mut().skip(1) { x.far_future = true; }
+            s.gap_ms = [0, 3, 0];
+            v.insert(0, s);
         }
     }
     if std::env::var("VERIF_C20_SELFTEST").as_deref() == Ok("hang") {
@@ -514,6 +529,19 @@ fn main() {
             }
         }
         let mut labels = t.labels.clone();
+        // a caller whose last step read a path but who got "no path": the path was expired at the
+        // caller's `now` (path(): NoPathsFound, cached_path(): None)
+        for (i, rr) in &o.results {
+            if !matches!(rr, Res::ENoPaths | Res::NoneCached) { continue; }
+            let mine = |l: &String| { let mut it = l.split(' '); let h = it.next().unwrap_or(""); let who = it.next().unwrap_or(""); ["LPeek", "LContains", "LEnsure", "LLoad1", "LCheck", "LWake", "LLoad2", "LErr"].contains(&h) && who == i.to_string() };
+            if let Some(k) = labels.iter().rposition(mine) {
+                let l = &labels[k];
+                if (l.starts_with("LPeek") || l.starts_with("LLoad1") || l.starts_with("LLoad2")) && l.ends_with(" true") {
+                    sum.count("expired_for_caller");
+                    labels.insert(k + 1, format!("LExpired {i} {}", rr.coq().unwrap()));
+                }
+            }
+        }
         if !t.ok { labels.push("LWake 99999".into()); }   // a label the model refuses: forces bit 1
         let mut res_ok = true;
         let res: Vec<String> = o.results.iter().map(|(i, rr)| match rr.coq() {
@@ -528,7 +556,7 @@ fn main() {
             coq_bool(strict), sc.waiters.len(), coq_list(labels.iter().cloned()), coq_list(res),
             coq_bool(o.hung || !res_ok), coq_list(fin_s), o.fetches);
         sh.push(case);
-        let tr_short = short(&t.labels);
+        let tr_short = short(&labels);
         let mut oc: Vec<String> = o.results.iter().map(|(_, rr)| format!("{rr:?}")).collect();
         oc.sort();
         let oc_key = format!("{} | quits {:?}", oc.join(","), {
@@ -540,7 +568,7 @@ fn main() {
         outcomes.insert(oc_key);
         let line = format!("{} {} callers={:?} answers={:?} idle={}ms refetch={}ms gaps={:?}ms stop={:?} final_wait={}ms perturb={} seed={} hung={} exited_all={} {} results={:?} trace: {}",
             sc.name, if strict { "ct".to_string() } else { format!("mt{}", sc.threads) },
-            sc.waiters.iter().map(|w| format!("{}{}y{}", ["p", "c", "t"][w.kind as usize], w.wave, w.pre_yields)).collect::<Vec<_>>(),
+            sc.waiters.iter().map(|w| format!("{}{}y{}{}", ["p", "c", "t"][w.kind as usize], w.wave, w.pre_yields, if w.far_future { "F" } else { "" })).collect::<Vec<_>>(),
             sc.answers.iter().map(|a| format!("{}y{}s{}", ["ok", "empty", "notfound", "err"][a.res as usize], a.yields, a.sleep_ms)).collect::<Vec<_>>(),
             sc.idle_ms, sc.refetch_ms, sc.gap_ms, sc.stop_in_wave, sc.final_wait_ms, sc.perturb, sc.seed, o.hung, o.exited_all,
             if t.ok { String::new() } else { format!("UNTRANSLATABLE({})", t.why) }, o.results, tr_short);
